@@ -858,6 +858,30 @@ def oracle(ctx):
                  "unchanged by a full recycle " + ("BEFORE the outcome of the validation was committed" if race else
                                                     "after the step was parked") + "; nothing clears the flag",
                  {"replay": name, "trace": r["trace"], "states": r["states"], "stuck": r["stuck"], "after": r["after"]})
+    # D39-refine (found by C02): deferring a step and re-attaching its orphan dynamic input by a declaration must
+    # commute on the step's row (C10_defer_and_reattachment_commute_on_the_deferred_flag).  Judged only for the
+    # refined trigger; for the unconditional trigger of repo 84081f2 the Coq refutation
+    # C10_defer_and_reattachment_order_matters_with_unconditional_trigger says that the order decides
+    refined = D39.trigger_is_refined()
+    ctx.stats["undefer_trigger_refined"] = refined
+    for how in ("static", "output"):
+        try:
+            ra = run(D39.defer_reattach_pair(how, "r1r2"), timeout=120)
+            rb = run(D39.defer_reattach_pair(how, "r2r1"), timeout=120)
+        except Exception as exc:  # noqa: BLE001
+            fail("replay:d39-refine:pair-not-reproduced", "commute:defer-vs-reattach",
+                 f"the pair could not be driven: {type(exc).__name__}: {exc}", {"how": how, "error": repr(exc)})
+            continue
+        ctx.case(("commute", "defer-vs-reattach", how), True)
+        same = ra["S"] == rb["S"] and ra["next_job"] == rb["next_job"]
+        ctx.stats["defer_vs_reattach_" + how] = {"r1;r2": ra["S"] + [ra["next_job"]], "r2;r1": rb["S"] + [rb["next_job"]]}
+        if not same and refined:
+            fail(D39.SIG_ORDER, "commute:defer-vs-reattach",
+                 f"S is deferred (r1) and another running step declares S's orphan dynamic input f1.txt ({how}, r2): after r1;r2 "
+                 f"S = (state, deferred, defer_count) {ra['S']}, next job {ra['next_job']!r}; after r2;r1 S = {rb['S']}, next job "
+                 f"{rb['next_job']!r}; f1.txt is {ra['f1']} in both: the re-attachment woke a step whose input is still unusable",
+                 {"how": how, "r1;r2": {k: ra[k] for k in ("S", "f1", "next_job")},
+                  "r2;r1": {k: rb[k] for k in ("S", "f1", "next_job")}, "snapshot_r1r2": ra["snapshot"]})
     if ctx.thorough():
         # the same two histories at system level: the real serve(), real digests, three builds on one graph.db
         from . import d39_sys
